@@ -265,6 +265,9 @@ def c12(ctx):
     absorb_bad(ctx, bad)
     bad2, ev2, h2, sk2 = run_traces(ctx, "clock", 8 if quick else 12, 3 if quick else 10, 340, with_sum=True)
     absorb_bad(ctx, bad2)
+    badm, evm, hm_, skm = run_traces(ctx, "clock", 1 if quick else 3, 1, 1300, with_sum=True, label="marathon")
+    absorb_bad(ctx, badm)
+    ev2 += evm
     # B1: the board after EVERY legal move of every oracle state (1-ply neighbourhood of the catalogue, both colours)
     bo = ctx.path("boards_after_moves.ndjson")
     summ1 = engines.oracle_replay(ctx, seed_records(load_seeds(), both_colours=True), 1 if quick else 2, ["C12"], label="positions", boards_out=bo)
@@ -297,9 +300,12 @@ def c16(ctx):
     absorb_bad(ctx, bad2)
     # the Game API's own verdict along long shuffling games (positions recur, the clock passes 100)
     import props_game
-    gb, gev, gh = props_game.run_game_traces(ctx, "longgame", 1, 0, 0, extra=["--rounds", 30 if quick else 70])
+    gb, gev, gh = props_game.run_game_traces(ctx, "longgame", 1, 0, 0, extra=["--rounds", 70 if quick else 150])
     props_game.absorb_game(ctx, [b for b in gb if b["why"] in ("draw by move count not reported",) or
                                  (b["why"] == "draw reported too early" and b.get("x", {}).get("occurred", 0) < 3)], {"GEnding"})
+    # the Game's own move counter (what the game loops compare with their move limit)
+    props_game.absorb_game(ctx, [b for b in gb if "gfm" in b.get("diff", []) or "fm" in b.get("diff", []) or "hm" in b.get("diff", [])],
+                           {"Coord", "CoordBatch", "GToggle", "GEnding", "EngineMove", "GLabels"})
     ctx.evaluations += ev + ev2 + gev
     ctx.nontrivial += hist
     ctx.rule = ("design: ClockInvariant on MC_Engine; B2: games steered into long reversible stretches with occasional pawn moves (330-700 plies, clocks also started at 40-100 so that "
